@@ -229,6 +229,24 @@ func (m *c13Mon) after(h *H, s *step) {
 	if s.Kind == "callback" && s.R.IsRedirect() && !h.w.IsLoginRedirect(s.R) {
 		m.completed++
 	}
+	if h.w.IsLoginRedirect(s.R) && !s.R.FaultFired() {
+		// whatever the provider advertises (or fails to), the login request carries the eight parameters, once each,
+		// and the only challenge method this property allows
+		if u, err := url.Parse(s.R.Location()); err == nil {
+			q := sim.ParsePairs(u.RawQuery)
+			for _, k := range []string{"response_type", "client_id", "redirect_uri", "scope", "state", "nonce", "code_challenge", "code_challenge_method"} {
+				if len(q[k]) != 1 || q[k][0] == "" {
+					h.c.Violation("param-mismatch:"+k+":in-history", "step #%d: login Location %q carries %s = %q, want exactly one non-empty value", s.N, s.R.Location(), k, q[k])
+				}
+			}
+			if m := q["code_challenge_method"]; len(m) == 1 && m[0] != "S256" {
+				h.c.Violation("param-mismatch:code_challenge_method:in-history", "step #%d: login Location %q uses code_challenge_method=%q (the provider advertises %v)", s.N, s.R.Location(), m[0], h.w.IdP.ChallengeMethods)
+			}
+			if r := q["response_type"]; len(r) == 1 && r[0] != "code" {
+				h.c.Violation("param-mismatch:response_type:in-history", "step #%d: response_type=%q", s.N, r[0])
+			}
+		}
+	}
 }
 
 func c13Histories(c *sim.Case) {
